@@ -52,7 +52,20 @@ EvoOptTransient(D) ==
   [WithTransient(D, {Len(D.fields)}) EXCEPT !.steps = <<Stp("MadeOptional", LastF(D).n, <<>>), Stp("MadeTransient", LastF(D).n, <<>>)>>]
 \* added, made optional, removed again: the header falls back to a removed-name step twice
 EvoAddOptRemove(D) == [D EXCEPT !.steps = <<Stp("Added", Gone, <<>>), Stp("MadeOptional", Gone, <<>>), Stp("Removed", Gone, <<>>)>>]
-DeclsD == {EvoAddedLast(D) : D \in SmallShapes} \cup {EvoRemovedGone(D) : D \in SmallShapes}
+\* two-step combinations: an added field declared before / after a made-optional chunk-0 field
+EvoAddFirstOptSecond(D) ==
+  [D EXCEPT !.steps = <<Stp("Added", D.fields[1].n, DefaultFor(D.fields[1])), Stp("MadeOptional", D.fields[2].n, <<>>)>>,
+            !.fields[1].dv = DefaultFor(D.fields[1])]
+EvoOptFirstAddLast(D) ==
+  [D EXCEPT !.steps = <<Stp("MadeOptional", D.fields[1].n, <<>>), Stp("Added", LastF(D).n, DefaultFor(LastF(D)))>>,
+            !.fields[Len(D.fields)].dv = DefaultFor(LastF(D))]
+EvoAddMiddleOptLast(D) ==
+  [D EXCEPT !.steps = <<Stp("Added", D.fields[2].n, DefaultFor(D.fields[2])), Stp("MadeOptional", LastF(D).n, <<>>)>>,
+            !.fields[2].dv = DefaultFor(D.fields[2])]
+DeclsD2 == {EvoAddFirstOptSecond(D) : D \in {X \in SmallShapes : Len(X.fields) >= 2 /\ X.fields[2].t.k = "opt"}}
+           \cup {EvoOptFirstAddLast(D) : D \in {X \in SmallShapes : Len(X.fields) >= 2 /\ X.fields[1].t.k = "opt"}}
+           \cup {EvoAddMiddleOptLast(D) : D \in {X \in SmallShapes : Len(X.fields) = 3 /\ LastF(X).t.k = "opt"}}
+DeclsD == DeclsD2 \cup {EvoAddedLast(D) : D \in SmallShapes} \cup {EvoRemovedGone(D) : D \in SmallShapes}
           \cup {EvoAddOptRemove(D) : D \in SmallShapes}
           \cup {EvoOptFirst(D) : D \in {X \in SmallShapes : X.fields[1].t.k = "opt"}}
           \cup {EvoAddedOptLast(D) : D \in {X \in SmallShapes : LastF(X).t.k = "opt"}}
